@@ -40,7 +40,7 @@ def _off(v, k):
 # ---------------------------------------------------------------------------------------------- templates
 def t_offset(r):
     """x[i+k] in seq(lo, n-d) over R[n] (or a window argument [R][n])"""
-    k, d, lo = r.choice([-1, 0, 1, 1, 2]), r.choice([0, 0, 1, 2]), r.choice([0, 0, 1])
+    k, d, lo = r.choice([-2, -1, 0, 1, 1, 2, 3]), r.choice([0, 0, 1, 2, 3]), r.choice([0, 0, 1, 2])
     a = r.choice([None, None, d, d + 1, lo + d, lo + d + 1])
     ty = r.choice(["R[n]", "[R][n]"])
     acc = "x[%s]" % _off("i", k)
@@ -57,9 +57,13 @@ def t_trip(r):
     preds = ["n >= %d" % b] if b else []
     inner = r.choice(["x[i - %d] = 0.0" % a, "x[i - %d] += 1.0" % a, "pass"])
     body = ["for i in seq(%d, %s):" % (a, _off("n", -d))] + _ind([inner])
-    if r.random() < 0.3:  # guarded loop
+    q = r.random()
+    if q < 0.25:  # guarded loop
         g = r.choice(["n >= %d" % (a + d), "n > %d" % (a + d), "n >= %d" % (a + d - 1)])
         body = ["if %s:" % g] + _ind(body)
+    elif q < 0.5:  # loop in the else branch: safe iff the NEGATED guard gives the bound
+        g = r.choice(["n < %d" % (a + d), "n <= %d" % (a + d), "n >= %d" % (a + d), "n < %d" % (a + d - 1)])
+        body = ["if %s:" % g, "    pass", "else:"] + _ind(body)
     return _proc("foo", ["n: size", "x: R[n]"], preds, body)
 
 
@@ -74,9 +78,13 @@ def t_alloc(r):
     else:
         ext = _off("n", -a)
     use = r.choice([["for i in seq(0, %s):" % ext, "    t[i] = 0.0"], ["pass"]])
-    if r.random() < 0.3:
+    if r.random() < 0.25:
         return _proc("foo", ["n: size", "m: size", "x: R[n]"], preds, ["t: R[%s, m]" % ext, "pass"])
-    return _proc("foo", ["n: size", "x: R[n]"], preds, ["t: R[%s]" % ext] + use)
+    body = ["t: R[%s]" % ext] + use
+    if r.random() < 0.3:  # allocation in a branch
+        g = r.choice(["n > %d" % a, "n >= %d" % a, "n <= %d" % a])
+        body = r.choice([["if %s:" % g] + _ind(body), ["if %s:" % g, "    pass", "else:"] + _ind(body)])
+    return _proc("foo", ["n: size", "x: R[n]"], preds, body)
 
 
 def _sub_vec(r, name="sub"):
@@ -99,6 +107,9 @@ def t_call_size(r):
     lo = r.choice([0, 0, 1])
     hi1 = L1 if lo == 0 else "%s + %d" % (L1, lo)
     call = "sub(%s, x[%d:%s], y[0:%s])" % (sz, lo, hi1, sz)
+    if r.random() < 0.3:  # a size parameter that is not the extent of any argument
+        sub = _proc("sub", ["k: size", "dst: [R][4]"], [], r.choice([["dst[0] = 1.0"], ["for i in seq(0, k):", "    dst[0] += 1.0"]]))
+        return sub + "\n" + _proc("foo", ["n: size", "x: R[8]"], preds, ["sub(%s, x[0:4])" % sz])
     return sub + "\n" + _proc("foo", ["n: size", "x: R[n]", "y: R[n]"], preds, [call])
 
 
